@@ -53,7 +53,7 @@ func gInit() {
 
 func gSigner(w, i, s int) *dkg.ThresholdSigner {
 	return dkg.NewThresholdSigner(
-		group.MemberIndex(i),
+		memberIndex(i),
 		gKeys[w],
 		big.NewInt(int64(1000+s)),
 		map[group.MemberIndex]*bn256.G2{1: gKeys[w]},
@@ -79,7 +79,7 @@ func (r *grig) snapshot() string {
 		ms := r.reg.GetGroup(gSigner(w, 1, 0).GroupPublicKeyBytes())
 		var ss []string
 		for _, m := range ms {
-			i := int(m.Signer.MemberID())
+			i := indexDigit(int(m.Signer.MemberID()))
 			got, err := m.Signer.Marshal()
 			sid := -1
 			if err == nil {
